@@ -1,9 +1,13 @@
 CONSTANTS
-  MaxUI = 4
+  MaxUI = 3
   Kinds = {"finite", "endless"}
   ShowBumpsVersion = TRUE
   TemplateHasQ = TRUE
+  H = 2
+  LensKind = "one"
+  WithScroll = FALSE
+  DelayedSetsVersion <- TreeDelayedSetsVersion
 SPECIFICATION Spec
-INVARIANTS TypeOK OneAlive ShownIsStarted Convergence ShowFixed ExitClean
+INVARIANTS TypeOK OneAlive ShownIsStarted Convergence ShowFixed DelayedFixed RowsOfOneRequest ExitClean
 PROPERTIES Liveness NoSurvivor
 CHECK_DEADLOCK FALSE
